@@ -70,6 +70,11 @@ THEOREMS = [
     "Pyribs.C19.gae_before_gradients",
     "Pyribs.C19.gae_jac_persistent",
     "Pyribs.C19.gop_refuses_ask",
+    "Pyribs.C19.gop_refuses_ask_nonempty",
+    "Pyribs.C19.gop_startup_ask",
+    "Pyribs.C19.gop_startup_askDqd",
+    "Pyribs.C19.gop_no_initial_on_nonempty",
+    "Pyribs.C19.gop_empty_batch",
     "Pyribs.C19.gop_ask_pure",
     "Pyribs.C19.gop_allows_ask",
     "Pyribs.C19.gop_tell_noop",
@@ -94,6 +99,7 @@ THEOREMS = [
     "Pyribs.C19.nonvacuous",
     "Pyribs.C19.nonvacuous_gop",
     "Pyribs.C19.nonvacuous_gop_bounded",
+    "Pyribs.C19.nonvacuous_gop_initial",
     "Pyribs.C19.nonvacuous_adam_l2",
 ]
 RULE = ("random call sequences over ask_dqd / tell_dqd / ask / tell (also before any gradients, repeated, and with "
@@ -106,7 +112,10 @@ RULE = ("random call sequences over ask_dqd / tell_dqd / ask / tell (also before
         "inserted under every restart rule), gae-refusal (calls before gradients), gop (GradientOperatorEmitter, "
         "measure gradients on/off, isotropic / iso_line_dd, solution bounds none / box / wide / one-sided mix / tight / "
         "tight around x0 with sigma up to 2 so that ask_dqd clips the perturbed parents often; every row of ask() is "
-        "held to clip(row RETURNED by the preceding ask_dqd + combination of the supplied gradients)). A case is non-trivial when it contains an ask after "
+        "held to clip(row RETURNED by the preceding ask_dqd + combination of the supplied gradients); a third of the "
+        "cases are configured with initial_solutions instead of x0 and call ask() out of order at every protocol "
+        "position: first on a pre-populated archive, after the start-up iteration without a new ask_dqd, between "
+        "ask_dqd and tell_dqd -- the initial solutions may only come out while the archive is empty at that very call). A case is non-trivial when it contains an ask after "
         "gradients with a non-zero Jacobian or a tell after gradients; counted once per distinct operation list.")
 PARTIAL = [
     "the Euclidean norms used by normalisation are supplied to the model (they are square roots); the model checks "
@@ -712,7 +721,11 @@ def run_gop(case, ctx):
     if case.get("bounds") is not None:
         barg = [None if b is None else tuple(None if v is None else float(Fraction(v)) for v in b)
                 for b in case["bounds"]]
-    em = GradientOperatorEmitter(arch, sigma=sig, sigma_g=sg, x0=x0, line_sigma=lsig, measure_gradients=mg,
+    init = None
+    if case.get("init"):
+        init = [[float(Fraction(v)) for v in r] for r in case["init"]]
+    em = GradientOperatorEmitter(arch, sigma=sig, sigma_g=sg, x0=None if init is not None else x0,
+                                 initial_solutions=init, line_sigma=lsig, measure_gradients=mg,
                                  normalize_grad=norm, epsilon=eps,
                                  operator_type="iso_line_dd" if line else "isotropic", bounds=barg,
                                  batch_size=batch, seed=case["seed"])
@@ -736,11 +749,19 @@ def run_gop(case, ctx):
         drv.ask(f"gop new n={n} m={m} mg={1 if mg else 0} sg={q(Fraction(float(np.float64(sg))))} "
                 f"norm={1 if norm else 0} eps={q(Fraction(eps))} "
                 f"lo={','.join('-inf' if v is None else q(v) for v in lo)} "
-                f"hi={','.join('inf' if v is None else q(v) for v in hi)}")
+                f"hi={','.join('inf' if v is None else q(v) for v in hi)} "
+                f"init={'none' if init is None else ';'.join(rowtok(frow(r)) for r in init)}")
         have_grad = False
         parents = None
         jac = None
         asked_since = 0
+        last_out = None
+        init_clipped = None if init is None else [clipf(frow(r)) for r in init]
+
+        def observe():
+            """tell the model what `archive.empty` is at the coming call; True in the start-up situation"""
+            drv.ask(f"gop observe {1 if arch.empty else 0}")
+            return bool(arch.empty) and init is not None
         for step, op in enumerate(case["ops"]):
             o = op["op"]
             where = f"op#{step} {o}"
@@ -750,11 +771,30 @@ def run_gop(case, ctx):
                 rows = rows_f(op["arows"])
                 arch.add(rows, np.array([float(Fraction(v)) for v in op["obj"]]), rows_f(op["meas"]))
                 continue
+            if o == "add_last":
+                # the caller evaluates the batch the last ask() handed out and inserts it
+                if last_out is not None and len(last_out):
+                    meas_ = np.zeros((len(last_out), md))
+                    cols = min(n, md)
+                    meas_[:, :cols] = np.clip(last_out[:, :cols], -4, 4)
+                    arch.add(last_out, -np.sum(last_out**2, axis=1), meas_)
+                continue
             if o == "ask_dqd":
+                startup = observe()
                 try:
                     p = em.ask_dqd()
                 except Exception as ex:  # pylint: disable=broad-except
                     return Failure("oracle", f"{where}: raised {type(ex).__name__}: {str(ex)[:80]}")
+                if startup:
+                    # documented: no solutions while the archive is empty and initial_solutions are configured
+                    if not isinstance(p, np.ndarray) or p.shape != (0, n):
+                        return Failure("oracle", f"{where}: start-up (empty archive, initial_solutions): ask_dqd returned "
+                                       f"shape {getattr(p, 'shape', None)}, expected no solutions (0, {n})")
+                    if drv.ask("gop askdqd") != "ok":
+                        return Failure("corr", f"{where}: model's start-up ask_dqd returned rows")
+                    parents = np.zeros((0, n))
+                    ctx.count("gop:startup-ask_dqd")
+                    continue
                 shadow.normal(loc=0.0, scale=np.float64(sig), size=(batch, n))
                 if line:
                     shadow.normal(loc=0.0, scale=lsig, size=(batch, 1))
@@ -773,8 +813,8 @@ def run_gop(case, ctx):
             if o == "tell_dqd":
                 if parents is None:
                     continue
-                j = np.array([rows_f(jr) for jr in op["jacs"][:len(parents)]], dtype=np.float64)
-                if len(j) < len(parents):
+                j = np.array([rows_f(jr) for jr in op["jacs"][:len(parents)]], dtype=np.float64).reshape(-1, m, n)
+                if 0 < len(j) < len(parents):
                     j = np.concatenate([j] + [j[-1:]] * (len(parents) - len(j)))
                 try:
                     em.tell_dqd(parents.copy(), np.zeros(len(parents)), np.zeros((len(parents), md)), j.copy(),
@@ -799,6 +839,7 @@ def run_gop(case, ctx):
                 drv.ask("gop tell")
                 continue
             if o == "ask":
+                startup = observe()
                 try:
                     out = em.ask()
                     res = "ok"
@@ -810,19 +851,46 @@ def run_gop(case, ctx):
                                        f"{type(ex).__name__}: {str(ex)[:60]} (the first ask overwrote the stored "
                                        f"Jacobian)", key="D26-gop-ask-twice")
                     return Failure("oracle", f"{where}: raised {type(ex).__name__}: {str(ex)[:80]}")
+                if startup:
+                    # the one documented exception: the archive is empty NOW and initial_solutions are configured
+                    if res != "ok" or not isinstance(out, np.ndarray) or out.shape != (len(init), n) or \
+                            [frow(r) for r in out] != init_clipped:
+                        return Failure("oracle", f"{where}: empty archive: ask() did not return the configured "
+                                       f"initial_solutions clipped to the bounds ({res}, "
+                                       f"{getattr(out, 'tolist', lambda: None)() if res == 'ok' else None})")
+                    mrows = parse_rows(drv.ask("gop ask"))
+                    if mrows != init_clipped:
+                        return Failure("corr", f"{where}: start-up ask impl=initial solutions model={mrows}")
+                    last_out = np.array(out, dtype=np.float64, copy=True)
+                    ctx.count("gop:startup-ask")
+                    continue
+                handed_out_init = res == "ok" and init is not None and isinstance(out, np.ndarray) and \
+                    out.shape == (len(init), n) and [frow(r) for r in out] == init_clipped
                 if not have_grad:
                     if res != "err runtime":
-                        return Failure("oracle", f"{where}: ask() before tell_dqd() did not raise RuntimeError")
+                        return Failure("oracle", f"{where}: ask() before any tell_dqd() on a non-empty archive did not "
+                                       f"raise RuntimeError" + (": it handed out the initial_solutions although the "
+                                                                "archive holds elites" if handed_out_init else ""))
                     if drv.ask("gop ask") != "err runtime":
                         return Failure("corr", f"{where}: model did not refuse")
-                    ctx.count("gop:ask-refused")
+                    ctx.count("gop:ask-refused" + (":initial_solutions-configured" if init is not None else ""))
                     continue
                 if res != "ok":
                     return Failure("oracle", f"{where}: ask() refused although gradients were supplied")
                 asked_since += 1
                 out = np.asarray(out, dtype=np.float64)
                 if out.shape != parents.shape:
-                    return Failure("oracle", f"{where}: ask returned shape {out.shape}, parents {parents.shape}")
+                    return Failure("oracle", f"{where}: non-empty archive: ask returned shape {out.shape} but the last "
+                                   f"ask_dqd returned {parents.shape[0]} parent(s) -- every row must be a returned parent "
+                                   f"plus a combination of the supplied gradients" +
+                                   ("; it handed out the initial_solutions although the archive holds elites"
+                                    if handed_out_init else ""))
+                last_out = np.array(out, dtype=np.float64, copy=True)
+                if len(parents) == 0:
+                    if drv.ask("gop ask") != "ok":
+                        return Failure("corr", f"{where}: empty batch of gradients: model returned rows")
+                    ctx.count("gop:ask-after-empty-batch")
+                    continue
                 noise = None
                 if mg:
                     noise = shadow.normal(loc=0.0, scale=np.float64(sg), size=(len(parents), m))
@@ -1071,11 +1139,39 @@ def gen_gop(rng):
         case["sigma"] = rng.choice(["1/2", "2"])   # sigma large relative to the box
         case["exact"] = False
     ops = []
-    if case["line"] or rng.random() < 0.6:
+    jacs_ = lambda: [gen_jac(rng, m, n, "dyadic") for _ in range(batch)]
+    shape = None
+    if rng.random() < 0.35:
+        # configured with initial_solutions instead of x0; ask() out of order at every protocol position:
+        #  A   the emitter is created on a pre-populated archive and ask() comes first (no gradients: must refuse)
+        #  B   start-up iteration through ask_dqd (no rows) / tell_dqd (empty batch) / ask (initial solutions),
+        #      the batch is inserted, then ask() again without ask_dqd (an empty batch, never the initial solutions)
+        #  B2  ask() straight away on the empty archive, the batch is inserted, ask() again (no gradients: refuse)
+        #  C   ask() between ask_dqd and tell_dqd and twice after, while the archive is still empty, then non-empty
+        case["init"] = [[dy(rng, 12, 4) for _ in range(n)] for _ in range(rng.randint(1, 3))]
+        shape = rng.choice(["A", "B", "B", "B2", "C"])
+        case["init_shape"] = shape
+        if shape == "A":
+            ops += [gen_arch_add(rng, n, md), {"op": "ask"}]
+            if rng.random() < 0.5:
+                ops += [{"op": "tell"}, {"op": "ask"}]
+        elif shape == "B":
+            ops += [{"op": "ask_dqd"}, {"op": "tell_dqd", "jacs": jacs_()}, {"op": "ask"}, {"op": "add_last"},
+                    {"op": "tell"}, {"op": "ask"}]
+            if rng.random() < 0.5:
+                ops.append({"op": "ask"})
+        elif shape == "B2":
+            ops += [{"op": "ask"}, {"op": "add_last"}, {"op": "tell"}, {"op": "ask"}]
+        else:
+            ops += [{"op": "ask_dqd"}, {"op": "ask"}, {"op": "tell_dqd", "jacs": jacs_()}, {"op": "ask"}, {"op": "ask"},
+                    {"op": "add_last"}, {"op": "ask"}]
+    if shape is None and (case["line"] or rng.random() < 0.6):
         ops.append(gen_arch_add(rng, n, md))
-    if rng.random() < 0.5:
+    if shape is None and rng.random() < 0.5:
         ops.append({"op": rng.choice(["ask", "tell"])})
     for _ in range(rng.randint(1, 4)):
+        if shape is not None and rng.random() < 0.3:
+            ops.append({"op": "ask"})     # out of order: before the iteration's ask_dqd
         ops.append({"op": "ask_dqd"})
         if rng.random() < 0.15:
             ops.append({"op": "ask"})
@@ -1088,7 +1184,7 @@ def gen_gop(rng):
             ops.append({"op": "tell"})
         if rng.random() < 0.3:
             ops.append(gen_arch_add(rng, n, md))
-    case["ops"] = [{"op": "cfg", "tag": f"gop/{n}/{md}/{batch}/{mg}/{case['norm']}/{case['line']}/{layout}/"
+    case["ops"] = [{"op": "cfg", "tag": f"gop/{n}/{md}/{batch}/{mg}/{case['norm']}/{case['line']}/{layout}/{shape}/"
                                         f"{case['seed']}"}] + ops
     return case
 
